@@ -488,6 +488,26 @@ def gen_case(rng, res, C, sets, viol, nontrivial):
         z = genir.build(m[0], outside=x.outside)
         keep.append(z)
         pair(x.root, z.root, "neutral-mutant:" + mk, True)
+    # float corner cases: two independent builds that differ only in the bits of one float attribute (NaN payload /
+    # quiet bit / sign, signed zero, infinities; bare or nested in array / dictionary / dense attributes), as attribute
+    # or property of a random op. The canonical form compares bit patterns, so it decides.
+    import copy as _copy
+    spec_ops = [o for o in genir.walk_ops(spec) if o["name"] != "builtin.module"]
+    for _ in range(3):
+        if not spec_ops:
+            break
+        fam, ka, kb = rng.choice(genir.FLOAT_EDGE_FAMILIES)
+        oid = rng.choice(spec_ops)["id"]
+        field = rng.choice(("attrs", "props"))
+        builds = []
+        for key in (ka, kb):
+            s2 = _copy.deepcopy(spec)
+            o2 = next(o for o in genir.walk_ops(s2) if o["id"] == oid)
+            name = "fbits" if field == "attrs" else ("prop3" if o2["name"].startswith("test.") else "p1")
+            o2[field] = [e for e in o2[field] if e[0] != name] + [[name, key]]
+            builds.append(genir.build(s2, outside=x.outside))
+        keep.extend(builds)
+        pair(builds[0].root, builds[1].root, "float-bits:" + fam.split(":")[0], None, "float_bits:" + fam, f"{field} {ka} vs {kb}")
     # IR-level edits of a clone / re-build
     for _ in range(3):
         z = genir.build(spec, outside=x.outside)
@@ -613,7 +633,7 @@ def oi_case(rng, res, C, sets, viol, nontrivial):
         a.parent.insert_op_after(b, a)
         how = "twin"
         ek = rng.choice(("none", "none", "retype_nested", "retype_result", "attr", "operand", "add_region", "nested_attr",
-                         "nested_operand", "prop"))
+                         "nested_operand", "prop", "float_bits", "float_bits"))
         bo, bb, br, bv = genir.collect(b)
         if ek == "retype_nested":
             nested = [v for v in bv if v not in b.results]
@@ -625,6 +645,12 @@ def oi_case(rng, res, C, sets, viol, nontrivial):
             v = rng.choice(b.results)
             Rewriter.replace_value_with_new_type(v, i64 if v.type == i32 else i32)
             how = "twin+result-retype"
+        elif ek == "float_bits":
+            fam, ka, kb = rng.choice(genir.FLOAT_EDGE_FAMILIES)
+            tgt_a, tgt_b = (a, b) if rng.random() < 0.6 or len(bo) < 2 else (genir.collect(a)[0][-1], bo[-1])
+            tgt_a.attributes["fbits"] = genir.ATTRS[ka]
+            tgt_b.attributes["fbits"] = genir.ATTRS[kb]
+            how = "twin+float-bits:" + fam.split(":")[0]
         elif ek == "attr":
             b.attributes["edit.k"] = StringAttr("e")
             how = "twin+attr"
@@ -1046,6 +1072,11 @@ def finish(agg, tier):
     for mk in genir.MUTATION_KINDS:
         if c.get(f"mut:{mk}:different", 0) < 15:
             inc.append(f"mutation kind {mk}: only {c.get(f'mut:{mk}:different', 0)} non-isomorphic pairs")
+    fb = sum(v for k, v in c.items() if k.startswith("mut:float_bits:") and k.endswith(":different"))
+    if fb < 300:
+        inc.append(f"only {fb} pairs differing in float corner-case bits")
+    if sum(v for k, v in c.items() if k.startswith("mut:float_bits:") and ":nan_q/nan_p1:" in k) < 20:
+        inc.append("too few NaN-payload pairs")
     for mk in ("retype", "operand", "attr", "swap_ops"):
         if c.get(f"mut:ir-edit:{mk}:different", 0) < 15:
             inc.append(f"ir edit {mk}: only {c.get(f'mut:ir-edit:{mk}:different', 0)} non-isomorphic pairs")
